@@ -31,7 +31,7 @@ struct PrimRun {
         bool is256 = bank >= BK_B256; const Bn& mod = is256 ? K().r : K().q; int bits = is256 ? 256 : 384;
         std::vector<uint8_t> h = unhex(op.s.empty() ? "" : op.s[0]); h.resize(bank_bytes[bank]);
         Bn v = Bn::from_le(h.data(), h.size()), full = Bn::sub(Bn(1).shl(bits), Bn(1));
-        switch (kind % 15) {
+        switch (kind % 16) {
         case 0: break;                                            // random
         case 1: v = mod; break; case 2: v = Bn::sub(mod, Bn(1)); break; case 3: v = Bn::add(mod, Bn(1)); break;
         case 4: v = Bn(0); break; case 5: v = Bn(1); break; case 6: v = full; break;
@@ -43,14 +43,32 @@ struct PrimRun {
         case 12: v = Bn::sub(mod, Bn(1)).shr1(); if (h[0] & 1) v = Bn::add(v, Bn(1)); break;                                                                   // (modulus-1)/2, (modulus+1)/2: doubling lands on modulus-1 / modulus+1
         case 13: { Bn top = Bn::sub(mod, Bn::mod(mod, Bn(1).shl(bits - 64))); v = Bn::add(top, Bn::mod(v, Bn(1).shl(bits - 64))).shr1(); break; }               // half of (top word of the modulus, random lower words): its double shares the top word with the modulus
         case 14: { Bn top = Bn::sub(mod, Bn::mod(mod, Bn(1).shl(bits - 32))); v = Bn::add(top, Bn::mod(v, Bn(1).shl(bits - 32))).shr1(); break; }               // the same at 32-bit granularity
+        case 15: {
+            // partial-product boundaries: two words x, y of the operand (any two positions, word size 64 or 32) are chosen so that the high word of
+            // x*y is exactly H in {2^(W-1)-1, 2^(W-1), 2^W-2, 2^(W/2)-1, 1} - where a row of a multiplication or squaring routine ends on a word
+            // that a pending carry turns over (or whose top bit a signed interpretation flips). y = floor(((H+1)*2^W - 1) / x), x > H.
+            int W = (h[2] & 1) ? 32 : 64, n = bits / W; uint64_t ones = W == 64 ? ~0ull : 0xFFFFFFFFull;
+            if (bank == BK_F384 || bank == BK_F256) {   // field elements: keep the value below the modulus (top word below the modulus' top word, the two chosen words elsewhere)
+                n -= 1; size_t nb = (size_t) bits / 8; uint64_t tw = 0; memcpy(&tw, &h[nb - 8], 8); uint64_t mt = mod.shl(0).low64(); { Bn t = mod; for (int k = 0; k < bits - 64; k++) t = t.shr1(); mt = t.low64(); }
+                tw %= mt; memcpy(&h[nb - 8], &tw, 8); if (W == 32 && n * 4 + 4 > (int) nb - 8) n -= 1;
+            }
+            for (int pr = 0; pr < 1 + (h[3] & 1); pr++) {
+                int i = h[4 + 3 * (size_t) pr] % n, j = h[5 + 3 * (size_t) pr] % n; if (i == j) j = (i + 1) % n;
+                uint64_t Hs[5] = {(1ull << (W - 1)) - 1, 1ull << (W - 1), ones - 1, (1ull << (W / 2)) - 1, 1}; uint64_t H = Hs[h[6 + 3 * (size_t) pr] % 5];
+                uint64_t x = 0; memcpy(&x, &h[(size_t) i * (size_t) (W / 8)], (size_t) (W / 8)); if (x <= H) x = H + 1 + x % (ones - H);
+                unsigned __int128 num = (((unsigned __int128) (H + 1)) << W) - 1; uint64_t y = (uint64_t) (num / x);
+                memcpy(&h[(size_t) i * (size_t) (W / 8)], &x, (size_t) (W / 8)); memcpy(&h[(size_t) j * (size_t) (W / 8)], &y, (size_t) (W / 8));
+            }
+            v = Bn::from_le(h.data(), h.size()); break; }
         }
+        if ((kind % 16 == 13 || kind % 16 == 14) && (h[7] & 1) && (bank == BK_B384 || bank == BK_B256)) v = Bn::add(v, Bn(1).shl(bits - 1));   // the same with the top bit set (not reduced): the double shifts a bit out AND shares the top word with the modulus
         if (bank == BK_F384 || bank == BK_F256) v = Bn::mod(v, mod);
         if (bank == BK_T768 || bank == BK_T512) {      // reduction inputs below modulus * 2^bits
             Bn lim = Bn::mul(mod, Bn(1).shl(bits)); Bn wide = Bn::from_le(h.data(), h.size());
             if (kind % 3 == 0) v = Bn::sub(lim, Bn(1 + (h[0] & 3))); else if (kind % 3 == 1) v = Bn::mod(wide, lim); else v = Bn::mul(Bn::sub(mod, Bn(1 + (h[1] & 1))), Bn::sub(mod, Bn(1 + (h[2] & 1))));
         }
         set(bank, reg, v);
-        env.logf("LOAD b%d r%zu k%d %s", bank, reg % bank_regs[bank], kind % 15, regs[bank][reg % bank_regs[bank]].hexs().c_str());
+        env.logf("LOAD b%d r%zu k%d %s", bank, reg % bank_regs[bank], kind % 16, regs[bank][reg % bank_regs[bank]].hexs().c_str());
     }
     // pair constructors: PAIR wide ra rb kind : make a + b land on a chosen boundary (both registers in the field bank)
     void op_pair(const Op& op) {
@@ -206,12 +224,12 @@ struct PrimScenario : Scenario {
         Rng r(seed); Plan p; p.scenario = name();
         auto kn = [&](const char* k, int64_t d) { auto it = knobs.find(k); return it == knobs.end() ? d : it->second; };
         auto rh = [&](size_t n) { std::vector<uint8_t> b(n); r.fill(b.data(), n); return hex(b.data(), n); };
-        for (int b = 0; b < BK_COUNT; b++) for (size_t i = 0; i < bank_regs[b]; i++) p.ops.push_back({"LOAD", {b, (int64_t) i, r.chance(1, 2) ? 0 : (int64_t) r.below(15)}, {rh(bank_bytes[b])}});
+        for (int b = 0; b < BK_COUNT; b++) for (size_t i = 0; i < bank_regs[b]; i++) p.ops.push_back({"LOAD", {b, (int64_t) i, r.chance(1, 2) ? 0 : (int64_t) r.below(16)}, {rh(bank_bytes[b])}});
         if (kn("entry", 0)) p.cfg["entry"] = 1 + (int64_t) r.below(4);
         int n = (int) kn("ops", 400);
         for (int i = 0; i < n; i++) {
             int k = r.range(0, 19);
-            if (k == 0) { int b = (int) r.below(BK_COUNT); p.ops.push_back({"LOAD", {b, (int64_t) r.below(8), (int64_t) r.below(15)}, {rh(bank_bytes[b])}}); }
+            if (k == 0) { int b = (int) r.below(BK_COUNT); p.ops.push_back({"LOAD", {b, (int64_t) r.below(8), (int64_t) r.below(16)}, {rh(bank_bytes[b])}}); }
             else if (k == 1 && r.chance(1, 2)) {
                 bool w = r.chance(1, 4); int64_t tr = (int64_t) r.below(4), ra = (int64_t) r.below(8); bool sq = !w && r.chance(1, 3);
                 int lvl = (int) r.below(w ? 9 : 13), rl = (int) r.below(3); std::vector<uint8_t> hb(160); r.fill(hb.data(), 160); std::string vhex;
